@@ -128,6 +128,7 @@ Proof.
   - rewrite Z.mul_0_r. apply chk_in. reflexivity.
 Qed.
 
+(* the inputs on which ops.rs::pow failed before its fix although the result fits *)
 Definition pow_known (a b : Z) : Prop := Z.abs a <= 1 /\ u32_max < b.
 
 Lemma big_pow_out a b : 2 <= Z.abs a -> 128 <= b -> in_i128 (a ^ b) = false.
@@ -161,23 +162,56 @@ Proof.
         rewrite Z.mul_1_l in E4. congruence.
 Qed.
 
+(* powers of -1, 0, 1 *)
+Lemma pow_unit a b : Z.abs a <= 1 -> 0 < b -> a ^ b = if Z.even b then a * a else a.
+Proof.
+  intros Ha Hb. assert (Hc : a = -1 \/ a = 0 \/ a = 1) by lia.
+  destruct (Z.even b) eqn:E.
+  - apply Z.even_spec in E. destruct E as [k Hk]. subst b.
+    rewrite Z.pow_mul_r by lia. rewrite Z.pow_2_r.
+    destruct Hc as [-> | [-> | ->]]; cbn [Z.mul Pos.mul Z.opp]; [rewrite Z.pow_1_l by lia; reflexivity|rewrite Z.pow_0_l by lia; reflexivity|rewrite Z.pow_1_l by lia; reflexivity].
+  - assert (Ho : Z.odd b = true) by (rewrite <- Z.negb_even, E; reflexivity).
+    apply Z.odd_spec in Ho. destruct Ho as [k Hk]. subst b.
+    rewrite Z.pow_add_r, Z.pow_1_r, Z.pow_mul_r, Z.pow_2_r by lia.
+    destruct Hc as [-> | [-> | ->]]; cbn [Z.mul Pos.mul Z.opp]; [rewrite Z.pow_1_l by lia; reflexivity|lia|rewrite Z.pow_1_l by lia; reflexivity].
+Qed.
+
+(* ops.rs::pow since its fix: exact or an error for every exponent *)
+Lemma pow_i128_spec a b : in_i128 a = true -> pow_i128 a b = if b <? 0 then None else chk (a ^ b).
+Proof.
+  intros Ha. unfold pow_i128, pow_exponent.
+  destruct ((0 <=? b) && (b <=? u32_max)) eqn:E1.
+  - rewrite <- (checked_pow_spec a b Ha) by (unfold pow_known; lia).
+    unfold checked_pow. destruct ((b <? 0) || (u32_max <? b)) eqn:E2; [lia|]. reflexivity.
+  - destruct (b <? 0) eqn:E2.
+    + destruct ((0 <? b) && (-1 <=? a) && (a <=? 1)) eqn:E3; [lia|reflexivity].
+    + destruct ((0 <? b) && (-1 <=? a) && (a <=? 1)) eqn:E3.
+      * rewrite pow_unit by lia. rewrite Zmod_even.
+        assert (Hc : a = -1 \/ a = 0 \/ a = 1) by lia.
+        destruct (Z.even b); destruct Hc as [-> | [-> | ->]]; vm_compute; reflexivity.
+      * symmetry. apply chk_out. apply big_pow_out; unfold u32_max in *; lia.
+Qed.
+
 (* ---- the i128 operations against the exact results ---- *)
 Definition chk_opt (o : option Z) : option Z := match o with Some r => chk r | None => None end.
 
-Lemma int_op_spec op a b : in_i128 a = true -> in_i128 b = true -> ~ (op = Pow /\ pow_known a b) ->
+Lemma int_op_spec op a b : in_i128 a = true -> in_i128 b = true ->
   int_op true op a b = chk_opt (exact op a b).
 Proof.
-  intros Ha Hb Hk. destruct op; cbn [int_op exact chk_opt]; try reflexivity.
+  intros Ha Hb. destruct op; cbn [int_op exact chk_opt]; try reflexivity.
   - unfold checked_div_euclid. destruct (b =? 0) eqn:E; [reflexivity|].
     rewrite rust_div_euclid_spec by lia. reflexivity.
   - unfold rem_i128. destruct (b =? 0) eqn:E; [reflexivity|]. cbn [chk_opt].
     rewrite rust_rem_euclid_spec by lia.
     symmetry. apply chk_in. apply in_i128_iff. apply in_i128_iff in Hb.
     destruct (euclid_law a b ltac:(lia)) as [_ H]. lia.
-  - rewrite checked_pow_spec; [|assumption|tauto]. destruct (b <? 0); reflexivity.
+  - rewrite pow_i128_spec by assumption. destruct (b <? 0); reflexivity.
 Qed.
 
-(* the operator as it was before the fix differs exactly at MIN % -1 *)
+(* the operators as they were before their fixes differ exactly at [pow_known] and at MIN % -1 *)
+Lemma pow_before_fix a b : in_i128 a = true -> ~ pow_known a b -> int_op false Pow a b = int_op true Pow a b.
+Proof. intros Ha Hk. cbn [int_op]. rewrite checked_pow_spec, pow_i128_spec by assumption. reflexivity. Qed.
+
 Lemma rem_before_fix a b : in_i128 a = true -> in_i128 b = true ->
   int_op false Rem a b = if (a =? i128_min) && (b =? -1) then None else int_op true Rem a b.
 Proof.
@@ -238,12 +272,11 @@ Definition answer (want : option Z) : outcome num :=
   end.
 
 Lemma model_binop_spec op a b : num_ok a = true -> num_ok b = true ->
-  ~ (op = Pow /\ pow_known (num_val a) (num_val b)) ->
   model_binop op a b =
     if in_i128 (num_val a) && in_i128 (num_val b) then answer (exact op (num_val a) (num_val b))
     else Err E_InvalidOperation.
 Proof.
-  intros Ha Hb Hk. rewrite model_binop_by_value by assumption.
+  intros Ha Hb. rewrite model_binop_by_value by assumption.
   destruct (in_i128 (num_val a)) eqn:E1; [|reflexivity].
   destruct (in_i128 (num_val b)) eqn:E2; [|reflexivity]. cbn [andb].
   rewrite int_op_spec by assumption.
@@ -376,11 +409,11 @@ Proof.
   rewrite Hx, Hy. cbn [bind]. rewrite model_binop_by_value by assumption. rewrite Hvx, Hvy. reflexivity.
 Qed.
 
-Lemma case_binop_spec op : ~ (op = Pow /\ pow_known a b) ->
+Lemma case_binop_spec op :
   model_case (Bin op) fa a fb b =
     if in_i128 a && in_i128 b then answer (exact op a b) else Err E_InvalidOperation.
 Proof.
-  intros Hk. rewrite case_binop_by_value.
+  rewrite case_binop_by_value.
   destruct (in_i128 a) eqn:E1; [|reflexivity]. destruct (in_i128 b) eqn:E2; [|reflexivity]. cbn [andb].
   rewrite int_op_spec by assumption.
   destruct (exact op a b) as [r|]; [|reflexivity].
@@ -481,23 +514,54 @@ Proof.
 Qed.
 
 (* ---- the statements of Props/C08.v ---- *)
+(* the operand can be written: a number of [-2^127, 2^128) in a form able to hold it *)
+Definition in_range (f : form) (z : Z) : Prop := denotable z = true /\ expressible f z = true.
+(* the cases of the listed known finding neg-2p127 *)
+Definition known_bin (fa : form) (a : Z) (fb : form) (b : Z) : bool := known false (is_lit fa) a (is_lit fb) b.
+Definition known_un (fa : form) (a : Z) : bool := known true (is_lit fa) a false 0.
+(* internal: range + the operand is not the literal -2^127 *)
 Definition in_domain (f : form) (z : Z) : Prop :=
   denotable z = true /\ expressible f z = true /\ known_operand (is_lit f) z = false.
 
-Lemma known_pow_iff a b : known_pow a b = false <-> ~ pow_known a b.
-Proof. unfold known_pow, pow_known, u32_max. lia. Qed.
+Lemma is_lit_true f : is_lit f = true <-> f = FLit.
+Proof. destruct f; cbn; split; intros H; congruence. Qed.
+
+(* [known] holds of exactly the listed inputs *)
+Lemma known_characterised_proof unary fa a fb b :
+  known unary (is_lit fa) a (is_lit fb) b = true <->
+    (fa = FLit /\ a = - 2 ^ 127) \/ (unary = false /\ fb = FLit /\ b = - 2 ^ 127) \/ (unary = true /\ a = 2 ^ 127).
+Proof.
+  unfold known, known_operand, known_neg. rewrite <- !is_lit_true.
+  destruct unary, (is_lit fa), (is_lit fb); cbn [andb orb negb]; split; intros H;
+    repeat match goal with H : _ \/ _ |- _ => destruct H | H : _ /\ _ |- _ => destruct H end;
+    try discriminate; try lia; try (left; split; [reflexivity|lia]);
+    try (destruct (a =? - 2 ^ 127) eqn:E; [left; split; [reflexivity|lia]|]);
+    try (right; left; repeat split; lia); try (right; right; split; [reflexivity|lia]).
+Qed.
+
+Lemma known_bin_false fa a fb b : known_bin fa a fb b = false ->
+  known_operand (is_lit fa) a = false /\ known_operand (is_lit fb) b = false.
+Proof.
+  unfold known_bin, known. cbn [negb andb]. rewrite orb_false_r.
+  destruct (known_operand (is_lit fa) a), (known_operand (is_lit fb) b); cbn; intros H; try discriminate; auto.
+Qed.
+Lemma known_un_false fa a : known_un fa a = false ->
+  known_operand (is_lit fa) a = false /\ known_neg a = false.
+Proof.
+  unfold known_un, known. cbn [negb andb]. rewrite orb_false_r.
+  destruct (known_operand (is_lit fa) a), (known_neg a); cbn; intros H; try discriminate; auto.
+Qed.
 
 Lemma exact_or_error_proof op fa a fb b :
-  in_domain fa a -> in_domain fb b -> op <> Pow \/ known_pow a b = false ->
+  in_range fa a -> in_range fb b -> known_bin fa a fb b = false ->
   match model_case (Bin op) fa a fb b with
   | Ok v => exact op a b = Some (num_val v) /\ num_ok v = true
   | Err _ => ~ (small a = true /\ small b = true /\ exists r, exact op a b = Some r /\ small r = true)
   | Panic | OutOfGas => False
   end.
 Proof.
-  intros (Hda & Hea & Hka) (Hdb & Heb & Hkb) Hk.
+  intros (Hda & Hea) (Hdb & Heb) Hk. apply known_bin_false in Hk as [Hka Hkb].
   rewrite case_binop_spec; try assumption.
-  2:{ intros [Hp Hq]. destruct Hk as [Hk|Hk]; [congruence|]. apply known_pow_iff in Hk. tauto. }
   rewrite !small_in_i128.
   destruct (in_i128 a) eqn:E1; [|cbn [andb]; intros (H & _); discriminate].
   destruct (in_i128 b) eqn:E2; [|cbn [andb]; intros (_ & H & _); discriminate].
@@ -509,31 +573,36 @@ Proof.
 Qed.
 
 Lemma width_independent_proof op fa fa' a fb fb' b :
-  in_domain fa a -> in_domain fa' a -> in_domain fb b -> in_domain fb' b ->
+  in_range fa a -> in_range fa' a -> in_range fb b -> in_range fb' b ->
+  known_bin fa a fb b = false -> known_bin fa' a fb' b = false ->
   model_case (Bin op) fa a fb b = model_case (Bin op) fa' a fb' b.
 Proof.
-  intros (Hda & Hea & Hka) (_ & Hea' & Hka') (Hdb & Heb & Hkb) (_ & Heb' & Hkb').
+  intros (Hda & Hea) (_ & Hea') (Hdb & Heb) (_ & Heb') Hk Hk'.
+  apply known_bin_false in Hk as [Hka Hkb]. apply known_bin_false in Hk' as [Hka' Hkb'].
   rewrite !case_binop_by_value by assumption. reflexivity.
 Qed.
 
-Lemma neg_exact_proof fa a fb b : in_domain fa a -> known_neg a = false ->
+Lemma neg_exact_proof fa a fb b : in_range fa a -> known_un fa a = false ->
   match model_case Neg fa a fb b with
   | Ok v => num_val v = exact_neg a /\ num_ok v = true
   | Err _ => ~ (small a = true /\ small (exact_neg a) = true)
   | Panic | OutOfGas => False
   end.
 Proof.
-  intros (Hda & Hea & Hka) Hn. rewrite case_neg_spec by assumption. unfold exact_neg.
+  intros (Hda & Hea) Hk. apply known_un_false in Hk as [Hka Hn].
+  rewrite case_neg_spec by assumption. unfold exact_neg.
   rewrite !small_in_i128.
   destruct (in_i128 a) eqn:E1; [|intros (H & _); discriminate]. cbn [answer].
   destruct (in_i128 (- a)) eqn:E2; [|intros (_ & H); discriminate].
   rewrite int_as_value_val. split; [reflexivity|apply int_as_value_ok; exact E2].
 Qed.
 
-Lemma neg_width_independent_proof fa fa' a fb fb' b b' : in_domain fa a -> in_domain fa' a ->
+(* holds for a = 2^127 as well: every form that can hold it shows the same (listed) behaviour *)
+Lemma neg_width_independent_proof fa fa' a fb fb' b b' : in_range fa a -> in_range fa' a ->
+  known_operand (is_lit fa) a = false -> known_operand (is_lit fa') a = false ->
   model_case Neg fa a fb b = model_case Neg fa' a fb' b'.
 Proof.
-  intros (Hda & Hea & Hka) (_ & Hea' & Hka').
+  intros (Hda & Hea) (_ & Hea') Hka Hka'.
   destruct (known_neg a) eqn:Hn.
   - unfold known_neg in Hn. assert (a = 2 ^ 127) by lia. subst a.
     destruct fa; try (vm_compute in Hea; discriminate); destruct fa'; try (vm_compute in Hea'; discriminate);
@@ -541,24 +610,24 @@ Proof.
   - rewrite !case_neg_spec by assumption. reflexivity.
 Qed.
 
-Lemma euclid_int_proof fa a fb b q r : in_domain fa a -> in_domain fb b ->
+Lemma euclid_int_proof fa a fb b q r : in_range fa a -> in_range fb b -> known_bin fa a fb b = false ->
   model_case (Bin FloorDiv) fa a fb b = Ok q -> model_case (Bin Rem) fa a fb b = Ok r ->
   b <> 0 /\ num_val q * b + num_val r = a /\ 0 <= num_val r < Z.abs b.
 Proof.
-  intros Ha Hb Hq Hr.
-  pose proof (exact_or_error_proof FloorDiv fa a fb b Ha Hb ltac:(left; discriminate)) as H1.
-  pose proof (exact_or_error_proof Rem fa a fb b Ha Hb ltac:(left; discriminate)) as H2.
+  intros Ha Hb Hk Hq Hr.
+  pose proof (exact_or_error_proof FloorDiv fa a fb b Ha Hb Hk) as H1.
+  pose proof (exact_or_error_proof Rem fa a fb b Ha Hb Hk) as H2.
   rewrite Hq in H1. rewrite Hr in H2. destruct H1 as [H1 _], H2 as [H2 _].
   cbn [exact] in H1, H2. destruct (b =? 0) eqn:E; [discriminate|].
   inversion H1. inversion H2. split; [lia|]. apply euclid_law. lia.
 Qed.
 
-Lemma rem_total_proof fa a fb b : in_domain fa a -> in_domain fb b ->
+Lemma rem_total_proof fa a fb b : in_range fa a -> in_range fb b -> known_bin fa a fb b = false ->
   small a = true -> small b = true -> b <> 0 ->
   exists v, model_case (Bin Rem) fa a fb b = Ok v /\ num_val v = emod a b.
 Proof.
-  intros (Hda & Hea & Hka) (Hdb & Heb & Hkb) Sa Sb Hb0.
-  rewrite case_binop_spec; try assumption; [|intros [H _]; discriminate].
+  intros (Hda & Hea) (Hdb & Heb) Hk Sa Sb Hb0. apply known_bin_false in Hk as [Hka Hkb].
+  rewrite case_binop_spec; try assumption.
   rewrite small_in_i128 in Sa, Sb. rewrite Sa, Sb. cbn [andb exact].
   destruct (b =? 0) eqn:E; [lia|]. cbn [answer].
   assert (Hr : in_i128 (emod a b) = true).
@@ -566,9 +635,12 @@ Proof.
   rewrite Hr. eexists. split; [reflexivity|apply int_as_value_val].
 Qed.
 
-Lemma int_cmp_exact_proof fa a fb b : in_domain fa a -> in_domain fb b ->
+Lemma int_cmp_exact_proof fa a fb b : in_range fa a -> in_range fb b -> known_bin fa a fb b = false ->
   model_compare fa a fb b = Ok (exact_cmp a b).
-Proof. intros (Hda & Hea & Hka) (Hdb & Heb & Hkb). apply case_compare_spec; assumption. Qed.
+Proof.
+  intros (Hda & Hea) (Hdb & Heb) Hk. apply known_bin_false in Hk as [Hka Hkb].
+  apply case_compare_spec; assumption.
+Qed.
 
 (* ---- integer / float comparison is exact (pure integer reasoning about round-to-nearest-even) ---- *)
 
@@ -792,10 +864,10 @@ Definition swap_cmp (swap : bool) (t : bool * bool * bool) : bool * bool * bool 
   let '(l, q, g) := t in if swap then (g, q, l) else (l, q, g).
 
 Lemma int_float_cmp_exact_proof swap bits fi z m e :
-  in_domain fi z -> decode bits = FFin m e ->
+  in_range fi z -> known_operand (is_lit fi) z = false -> decode bits = FFin m e ->
   model_compare_float as_f64_exact swap bits fi z = Some (Ok (swap_cmp swap (exact_cmp_rat m e z))).
 Proof.
-  intros (Hd & He & Hk) Hdec. pose proof (decode_mantissa bits m e Hdec) as Hm.
+  intros (Hd & He) Hk Hdec. pose proof (decode_mantissa bits m e Hdec) as Hm.
   unfold model_compare_float. rewrite syntax_ok_denotable by assumption. cbn [negb].
   destruct (operand_spec fi z Hd He Hk) as (v & Hv & Hval & Hok). rewrite Hv, Hdec.
   destruct v as [w z']. cbn [num_val num_ok] in *. subst z'.
